@@ -2,5 +2,5 @@ SPECIFICATION Spec
 CONSTANTS MaxDen = 8
  MaxLen = 4
  MaxN = 60
-INVARIANTS C06_Sem
+INVARIANTS C06_Sem C06_ScaleLemma
 CHECK_DEADLOCK FALSE
